@@ -18,7 +18,7 @@ VARY_ARGFORM = True  # integer call arguments also arrive as numpy integer scala
 GUARD_KERNELS = True
 SHRINK_LISTS = ("ops", "faults", "ranges", ("files", "nsamps"))
 SHRINK_MIN = {"nchans": 2, "nbits": 1, "gulp": 1}
-SHRINK_SIMPLE = {"argform": "int"}
+SHRINK_SIMPLE = {"argform": "int", "refused_first": None}
 FCH1, FOFF = 1500.0, -0.5
 BANDS = [(1500.0, -0.5), (1581.804688, -0.390625), (1400.1, 0.3)]  # float32-exact and not
 
@@ -121,6 +121,7 @@ def generate(rng, tier) -> dict:
         sc["ranges"] = sc["ranges"] or gen_ranges(rng, nchans, band) or [[band[0] - 1, band[0] + 1]]
     if rng.random() < 0.2:
         sc["faults"].append({"kind": rng.choice(["R1", "R2", "W3"]), "op": rng.randrange(2), "call": rng.choice([0, 1, 2, 3, 5]), "arg": rng.randint(0, 20)})
+    sc["refused_first"] = rng.choice([None, None, None, "clean_rfi", "compute_stats", "compute_stats_basic"])
     return sc
 
 
@@ -345,6 +346,18 @@ def exec_clean(sc, ctx) -> None:
                 with open(os.path.join(ctx.root, f"clean{i}.fil"), "wb") as fp:
                     fp.write(bytes((j * 37 + 11) & 0xFF for j in range(2048 + N * sc["files"]["nchans"] * 4)))
                 ctx.probe("output-name-held-a-longer-file")
+            if sc.get("refused_first") and not sc["faults"]:
+                # the same object was first asked for something the library refuses by itself (a range beyond the end
+                # of the data); it is then used again
+                try:
+                    if sc["refused_first"] == "clean_rfi":
+                        reader.clean_rfi(method=sc["method"], threshold=thr, outfile_name=os.path.join(ctx.root, f"refused{i}.fil"), gulp=nint(gulp), start=nint(N + 3), nsamps=nint(2), quiet=True)
+                    else:
+                        getattr(reader, sc["refused_first"])(gulp=nint(gulp), start=nint(N + 3), nsamps=nint(2), quiet=True)
+                    ctx.observations["out-of-range-call-was-not-refused"] += 1
+                except Exception as e:  # noqa: BLE001 - context
+                    ctx.observations["refused-first:" + type(e).__name__] += 1
+                ctx.probe("object-used-again-after-a-call-it-refused")
             try:
                 out, rm = reader.clean_rfi(method=sc["method"], threshold=thr, freq_mask=[tuple(r) for r in sc["ranges"]] or None,
                                            custom_funcn=custom_fn(sc["fn"]) if sc["fn"] else None, mask_value=sc["mask_value"],
@@ -368,6 +381,14 @@ def exec_clean(sc, ctx) -> None:
                 ctx.probe("fault-raised")
                 continue
             M = np.array(rm.chan_mask, dtype=bool)
+            if np.all(np.isfinite(X.astype(np.float64))) and float(np.abs(X.astype(np.float64)).max()) < 1e6:  # moments of larger values leave float32
+                # the statistics the mask carries are those of the cleaned range (a fresh reader computes them in this call)
+                from .c06 import compare_stats, two_pass
+
+                got_st = {"count": np.full(nchans, ns), "mean": np.asarray(rm.chan_mean, dtype=np.float64), "var": np.asarray(rm.chan_var, dtype=np.float64),
+                          "min": np.asarray(rm.chan_minima), "max": np.asarray(rm.chan_maxima)}
+                compare_stats(got_st, two_pass(X), "compute_stats_basic", lambda c, d: mk("statistics-are-not-those-of-the-cleaned-range/" + c, d))
+                ctx.probe("mask-statistics-compared-with-the-data")
             user = model_user(np.asarray(reader.header.chan_freqs, dtype=np.float32), sc["ranges"], ctx, (spec["fch1"], spec["foff"]))
             stats_m = model_stats([np.asarray(rm.chan_var), np.asarray(rm.chan_skew), np.asarray(rm.chan_kurt)], sc["method"], thr)
             cust = custom_fn(sc["fn"])(user | stats_m) if sc["fn"] else np.zeros(nchans, dtype=bool)
